@@ -85,9 +85,6 @@ def run_h(ctx, exe, jobs, nthreads, coexist, churn, tsan=False, timeout=1800, ho
     return r.returncode, res, ids, r.stderr
 
 
-QSORT_KEY = "qsort-guard-unlock-without-lock"
-
-
 def lock_balance(ctx, label, js, res, hist):
     """every pthread_mutex_unlock of qsort_lock / map_lock must follow a lock by the same thread (harness lock monitor)"""
     lb = LAST.get("lockbal")
@@ -99,9 +96,9 @@ def lock_balance(ctx, label, js, res, hist):
         ctx.violation(f"{label}: map_lock unlocked {lb[1]} time(s) by a thread that had not locked it", {"mode": "seq", "jobs": [js[k] for k in bad] or js})
     if lb[0] > 0:
         hist["unlock_without_lock"] += lb[0]
-        ctx.finding(QSORT_KEY, f"{label}: qsort_lock unlocked {lb[0]} time(s) without a preceding lock by the same thread "
-                    f"(jobs {[js[k][0] + ':' + js[k][1][:24] for k in bad][:4]}; `if (n > 1) qsort(...)` with n <= 1 under the thread.h macro)",
-                    {"mode": "seq", "jobs": [js[k] for k in bad][:3]})
+        ctx.violation(f"{label}: qsort_lock unlocked {lb[0]} time(s) without a preceding lock by the same thread "
+                      f"(jobs {[js[k][0] + ':' + js[k][1][:24] for k in bad][:4]}): the guard around the C library sort no longer excludes",
+                      {"mode": "seq", "jobs": [js[k] for k in bad][:3] or js})
 
 
 def tsan_reports(stderr):
@@ -161,13 +158,7 @@ def explore(ctx, budget, tsan_budget, repeats, thread_counts, hist):
     jobs = gt.jobs(rng, budget)
     nload = ctx.n(8, 20) if ctx.tier == "thorough" or budget < 100 else 20
     loads = gt.load_jobs(rng, nload)
-    if (ctx.prop, QSORT_KEY) in ctx.known or hist.get("audit", {}).get("qsort_conditional", 1) == 0:
-        loads += gt.tiny_db_jobs(rng, 2)
-    else:
-        # Concrete_PHR.dat (fails alone, one master species missing) and the tiny databases reach `if (n > 1) qsort(...)` with
-        # n <= 1: reported to the lead; run only once the finding is listed or the macro is repaired
-        loads = [j for j in loads if j[1] != "Concrete_PHR.dat"]
-        hist["lock_balance_families_held_back"] = ["tiny_db", "load_db:Concrete_PHR.dat"]
+    loads += gt.tiny_db_jobs(rng, 2)        # databases with 0 / 1 master species: `if (n > 1) qsort(...)` with n <= 1
     strict = [j for j in jobs if j[0] not in TRANSPORT_FAMILIES] + loads
     trans = [j for j in jobs if j[0] in TRANSPORT_FAMILIES] + gt.multi_d_jobs(rng, max(2, budget // 10))
     for j in strict + trans:
@@ -299,11 +290,18 @@ def names_phase(ctx, exe, njobs, hist):
     every channel and every file's content identical between the two ids."""
     import shutil
     import tempfile
-    rng = ctx.rng
-    js = gt.default_name_jobs(rng, njobs)
-    runs = []
+    js = gt.default_name_jobs(ctx.rng, njobs)
     ctx.log(f"phase default names: {len(js)} jobs at two id offsets")
-    for co in (0, rng.randint(1, 9)):
+    return names_phase_jobs(ctx, exe, js, ctx.rng.randint(1, 9), hist)
+
+
+def names_phase_jobs(ctx, exe, js, offset, hist):
+    import shutil
+    import tempfile
+    hist.setdefault("default_name_checks", 0)
+    hist.setdefault("id_pairs", [])
+    runs = []
+    for co in (0, offset):
         d = tempfile.mkdtemp(prefix="c06names_")
         try:
             rc, res, ids, err = run_h(ctx, exe, js, 1, co, 0, cwd=d)
@@ -393,7 +391,7 @@ def run(ctx):
 def unaccounted(glob):
     allowed = {"map_lock", "qsort_lock", "IPhreeqc::Instances", "IPhreeqc::InstancesIndex", "IPhreeqc::Version",
                "Keywords::phreeqc_keywords", "Keywords::phreeqc_keyword_names", "temp_keywords", "temp_keyword_names",
-               "PBasic::command_tokens", "temp_tokens", "temp_vopts", "Phreeqc::iso_defaults", "CParser::check_units()::units", "F_Re3"}
+               "PBasic::command_tokens", "temp_tokens", "temp_vopts", "Phreeqc::iso_defaults", "F_Re3", "DW.ref.*"}
     return [f"{o}:{n}" for o, n in glob.get("writable", []) if n not in allowed and not n.endswith("::vopts") and n not in KNOWN_SHARED]
 
 
@@ -405,10 +403,22 @@ def replay(ctx, data):
         ctx.log("replay file names a broken obligation, nothing to execute:", data.get("what"))
         ctx.violation("replayed: " + str(data.get("what")), {"replayed": data.get("broken")}, found_input=False)
         return
-    exe = ctx.build_harness("ph_threads")
+    ctx.build_lib()
+    exe = ctx.build_harness("ph_threads", extra=LOCKMON)
     rc, ref, ids, err = run_h(ctx, exe, jobs, 1, 0, 0)
     mode = data.get("mode", "par")
-    if mode == "tsan":
+    if LAST.get("lockbal") and LAST["lockbal"][0] + LAST["lockbal"][1] > 0:
+        ctx.violation(f"replayed: a lock was released without being held (qsort_lock, map_lock) = {LAST['lockbal']}", {"jobs": jobs, "mode": "seq"})
+    if mode == "nested":
+        rc, got, ids, err = run_h(ctx, exe, jobs, 0, 0, 0, hold=data.get("at", 3))
+        if rc != 0:
+            ctx.violation(f"replayed: process died (exit {rc}) in the nested run", {"jobs": jobs, "mode": mode, "at": data.get("at", 3)})
+            return
+    elif mode == "names":
+        names_phase_jobs(ctx, exe, jobs, data.get("coexist", 3), hist)
+        ctx.cov["evaluations"] = len(jobs)
+        return
+    elif mode == "tsan":
         ctx.build_lib("tsan", cxxflags=TSAN_FLAGS)
         exet = ctx.build_harness("ph_threads", variant="tsan", extra=["-fsanitize=thread", "-g1"])
         rc, got, ids, err = run_h(ctx, exet, jobs, 8, 2, 2, tsan=True)
